@@ -25,7 +25,7 @@ func init() {
 				"called from lexText, lexLeftDelim, lexRightDelim and lexComment; in the delimiter functions only under the trim-marker fact, in lexText only for the trimLength bytes computed under the " +
 				"left-trim-marker test after the pending text was emitted; the parser drops an itemText token without a node only in the header loop of parseTemplate under TrimSpace(val) == \"\". " +
 				"(C03.space) the trim predicate isSpace compares with exactly {space, tab, CR, LF} and both trim-length helpers use it. (C03.delims) the lexer reads delimiters only from its " +
-				"configured fields; the default* constants are referenced only by the lexer constructor.",
+				"configured fields; the default* constants are referenced only by the lexer constructor. (C03.next) lexText continues at the nearer of the next action candidate and the next comment candidate: the selection code, which touches the two positions by comparisons only, is executed on one representative of every ordering of absent/present positions.",
 			NotDecided:  "the index arithmetic of lexText's search for the next delimiter/comment start; ambiguity between user-chosen delimiters; that exactly the adjacent run is trimmed (the value of trimLength).",
 			Assumptions: []string{"strings.TrimLeftFunc/TrimRightFunc/HasPrefix behave as documented"},
 			Trusted:     commonTrusted,
